@@ -97,6 +97,11 @@ pub fn file_set(ctx: &mut Ctx, rng: &mut Rng, n_random: usize, cfg_proto: Cfg) -
             max_items: cfg_proto.max_items,
         };
         out.push((format!("gen:{}", seed), gen::random_file(seed, cfg)));
+        // every third slot additionally gets a scenario file (plausible contracts for the table-based detectors)
+        if k % 3 == 0 {
+            let s2 = rng.next();
+            out.push((format!("scn:{}", s2), gen::scenario_file(s2)));
+        }
     }
     ctx.count("generated_files", n_random as u64);
     out
